@@ -47,7 +47,7 @@ func never() bool { return false }
 // with a send (wantRecv=true: looks for receivers) or a receive on ch.
 func (s *Sched) pendingPartners(ch chanI, wantRecv bool, self *thread) (ts []*thread, idx []int) {
 	for _, t := range s.threads {
-		if t == self || t.done || t.pending == nil || t.pending.completed {
+		if t == self || t.done || t.pending == nil || t.pending.completed || !t.pending.waiting {
 			continue
 		}
 		o := t.pending
@@ -157,15 +157,28 @@ func (e plainError) Error() string  { return string(e) }
 func (e plainError) RuntimeError()  {}
 func (e plainError) String() string { return string(e) }
 
+// Channel operations are two-phase. Phase 1 ("arrive") is the scheduling point
+// before the operation: when the thread is picked it attempts the operation
+// against the current channel state, pairing only with threads that are
+// already *waiting*. If it cannot complete it registers as a waiter (phase 2)
+// and parks until the state allows it or a partner completed it. This keeps
+// non-blocking operations (select with default) exact: a thread that has not
+// yet reached its receive is not a waiting receiver.
+
 // Send is the rewritten `ch <- v`.
 func (c *Chan[T]) Send(v T) {
 	s := S
 	if c == nil {
-		s.point(&op{kind: opSend, obj: nil, enabled: never})
+		s.point(&op{kind: opSend, obj: nil, enabled: never, waiting: true})
 		return
 	}
 	self := s.cur
-	o := &op{kind: opSend, obj: c, cases: []selCase{{ch: c, send: true, sendVal: v}}}
+	s.point(&op{kind: opSend, obj: c, enabled: always})
+	if c.sendReady(self) {
+		c.doSend(v)
+		return
+	}
+	o := &op{kind: opSend, obj: c, waiting: true, cases: []selCase{{ch: c, send: true, sendVal: v}}}
 	o.enabled = func() bool { return c.sendReady(self) }
 	s.point(o)
 	if o.completed {
@@ -186,11 +199,15 @@ func (c *Chan[T]) Recv2() (T, bool) {
 	var got T
 	var gotOK bool
 	if c == nil {
-		s.point(&op{kind: opRecv, obj: nil, enabled: never})
+		s.point(&op{kind: opRecv, obj: nil, enabled: never, waiting: true})
 		return got, false
 	}
 	self := s.cur
-	o := &op{kind: opRecv, obj: c, cases: []selCase{{ch: c, recvFn: func(v any, ok bool) {
+	s.point(&op{kind: opRecv, obj: c, enabled: always})
+	if c.recvReady(self) {
+		return c.doRecv()
+	}
+	o := &op{kind: opRecv, obj: c, waiting: true, cases: []selCase{{ch: c, recvFn: func(v any, ok bool) {
 		if v != nil {
 			got = v.(T)
 		}
@@ -307,17 +324,39 @@ func RecvReal(ch <-chan struct{}) {
 func Select(hasDefault bool, cases ...Case) int {
 	s := S
 	self := s.cur
-	o := &op{kind: opSelect, hasDef: hasDefault}
+	var obj any
+	if len(cases) > 0 {
+		obj = cases[0].sc.ch
+	}
+	s.point(&op{kind: opSelect, obj: obj, enabled: always})
+	try := func() (int, bool) {
+		var ready []int
+		for i, c := range cases {
+			if c.ready != nil && c.ready(self) {
+				ready = append(ready, i)
+			}
+		}
+		if len(ready) == 0 {
+			return -1, false
+		}
+		k := 0
+		if len(ready) > 1 {
+			k = s.choose(len(ready), false, true, -1, len(ready), fmt.Sprintf("select-case(%d ready)", len(ready)))
+		}
+		cases[ready[k]].exec()
+		return ready[k], true
+	}
+	if i, ok := try(); ok {
+		return i
+	}
+	if hasDefault {
+		return -1
+	}
+	o := &op{kind: opSelect, obj: obj, waiting: true}
 	for _, c := range cases {
 		o.cases = append(o.cases, c.sc)
 	}
-	if len(cases) > 0 {
-		o.obj = cases[0].sc.ch
-	}
 	o.enabled = func() bool {
-		if hasDefault {
-			return true
-		}
 		for _, c := range cases {
 			if c.ready != nil && c.ready(self) {
 				return true
@@ -329,24 +368,10 @@ func Select(hasDefault bool, cases ...Case) int {
 	if o.completed {
 		return o.chosen
 	}
-	var ready []int
-	for i, c := range cases {
-		if c.ready != nil && c.ready(self) {
-			ready = append(ready, i)
-		}
+	if i, ok := try(); ok {
+		return i
 	}
-	if len(ready) == 0 {
-		if hasDefault {
-			return -1
-		}
-		panic("vsched: select executed while not enabled")
-	}
-	k := 0
-	if len(ready) > 1 {
-		k = s.choose(len(ready), false, true, -1, len(ready), fmt.Sprintf("select-case(%d ready)", len(ready)))
-	}
-	cases[ready[k]].exec()
-	return ready[k]
+	panic("vsched: select resumed while not enabled")
 }
 
 // ZeroOf helps the rewriter declare a temporary of the element type.
